@@ -99,6 +99,14 @@ CHECKS = {
             'non-iterables), inputs keep their canonical snapshot, init() is called once per evaluation, and the result object of each of the three evaluations of one spec object is fresh.',
             'Where builtin sum() is undefined but += is (list += tuple) the += result is the reference.',
             '3/C15'),
+    'C16': ('model_checking',
+            'bounded exhaustive enumeration of (Group spec tree, item sequence) with every spec object evaluated three times, against a declarative bucketing loop; a second operational model classifies the one recorded finding',
+            'Every item sequence of length <= 4 over {0,1,2,3} (341; plus list- and dict-valued items) x Group trees with 0-3 key levels over 5 key functions and 11 leaves '
+            '([T], [T*2], SKIP-/STOP-producing value specs, First, Max, Min, Avg, Sum, Count, plain callable; Flatten, Merge), top-level and nested Limit(n): the result, key order included, '
+            'equals a hand-written loop; each spec object is evaluated on A, A again and B (no carry-over); a menu nests one Group object inside another Group leaf. The known finding '
+            '(key-level STOP) is re-observed, classified by signature and reported as KNOWN-FINDING.',
+            'One key spec per dict level; None vs empty container is not distinguished when no item reaches the top-level leaf.',
+            '3/C16'),
 }
 
 NOT_YET = {}
